@@ -326,7 +326,7 @@ class SimRun(Engine):
             # the generated world itself was refused by the model layer: not the subject of
             # C01/C02 -- the run is discarded and counted (the runner fails the batch if
             # more than 5% of the runs are discarded)
-            ctx.probe("discarded-unbuildable-world:" + type(ex).__name__)
+            ctx.probe("discarded-unbuildable-world:" + type(ex).__name__ + ":" + str(ex)[:70])
             ctx.ev("discarded", type(ex).__name__)
             return False
         try:
